@@ -49,8 +49,17 @@ func escape(b *bytes.Buffer, r rune, force bool) {
 			b.WriteString(s)
 			break
 		}
+		if r > 0xFFFF {
+			// \u takes exactly four hex digits; a raw non-ASCII rune is already a literal
+			b.WriteRune(r)
+			break
+		}
 		b.WriteString(`\u`)
-		b.WriteString(strconv.FormatInt(int64(r), 16))
+		s := strconv.FormatInt(int64(r), 16)
+		for i := len(s); i < 4; i++ {
+			b.WriteRune('0')
+		}
+		b.WriteString(s)
 	}
 }
 
